@@ -179,6 +179,11 @@ class FieldData:
         (self.__class__.STORAGE_KEY == "name" and \
         fieldname == self.__class__.NAME_FIELD):
          renaming_connected = True
+         if value is not None:
+           # an invalid identifier must be refused before the line is
+           # unregistered, otherwise the line is lost from the Gfa
+           gfapy.Field._validate_gfa_field(value,
+               self._field_or_default_datatype(fieldname, value), fieldname)
          if self.__class__.STORAGE_KEY == "name":
            previous = self._gfa.line(value)
            if previous is not None and previous is not self:
